@@ -173,3 +173,319 @@ Example ex_float_unknown :
   | Err _ => false
   end = true.
 Proof. vm_compute. reflexivity. Qed.
+
+(* ================================================================== the load / store ROW SELECTION inside the model
+   Model: Model/Rows.v (get_load_throughput / get_store_throughput over the RAW tables of the machine model, with the
+   matcher of Model/Match.v -- the one C07 models and ties -- and the row choice of assign_tp_lt).  Proofs: Proofs/Rows.v.
+   "the model's load and/or store micro-ops FOR ITS ADDRESSING MODE AND REGISTER TYPE".
+   Names below: isa / X86 / A64 are Model/Match.v's; the costing model's are written Costing.isa etc. *)
+From OV Require Import Model.PyString Model.Match Model.MatchSpec Model.Rows Proofs.Rows.
+
+(* what the implementation tests per row, as booleans (Proofs/Rows.v):
+     shape_hit a m r = true <-> match_mem a m (rw_pat r) = Some true        (the row is for the addressing mode of m)
+     type_hit a rt r = true <-> exists s, rw_typ r = Some s /\ type_ok a rt s = Some true   (the row names the type rt) *)
+Theorem hit_meaning : forall {U} a m rt (r : row U),
+  (shape_hit a m r = true <-> match_mem a m (rw_pat r) = Some true) /\
+  (type_hit a rt r = true <-> exists s, rw_typ r = Some s /\ type_ok a rt s = Some true).
+Proof. intros. split; [apply shape_hit_iff|apply type_hit_iff]. Qed.
+Print Assumptions hit_meaning.
+
+(* the getters return exactly the matching rows of the table, in table order -- the default iff there is none *)
+Theorem getters_return_matching_rows : forall {U} a (tbl : list (row U)) d m rt,
+  (forall rows, get_load_throughput a tbl d m = Some rows ->
+     (filter (shape_hit a m) tbl = [] /\ rows = [(None, d)]) \/
+     (filter (shape_hit a m) tbl <> [] /\ rows = map view (filter (shape_hit a m) tbl))) /\
+  (forall rows, get_store_throughput a tbl d m (Some rt) = Some rows ->
+     let hits := filter (type_hit a rt) (filter (shape_hit a m) tbl) in
+     (hits = [] /\ rows = [(None, d)]) \/ (hits <> [] /\ rows = map view hits)) /\
+  get_store_throughput a tbl d m None = get_load_throughput a tbl d m.
+Proof.
+  intros. split; [|split].
+  - intros rows H. exact (proj2 (get_load_spec _ _ _ _ _ H)).
+  - intros rows H. exact (proj2 (get_store_spec _ _ _ _ _ _ H)).
+  - apply get_store_nosrc.
+Qed.
+Print Assumptions getters_return_matching_rows.
+
+(* soundness: a selected row is a row of the table and its pattern matches the operand's addressing mode
+   (store: and it names the source register type) *)
+Theorem selected_row_matches_addressing_mode : forall {U} a (tbl : list (row U)) m rt r,
+  (load_choice a tbl m rt = Some (CRow r) -> In r tbl /\ match_mem a m (rw_pat r) = Some true) /\
+  (store_choice a tbl m rt = Some (CRow r) ->
+     In r tbl /\ match_mem a m (rw_pat r) = Some true /\ exists s, rw_typ r = Some s /\ type_ok a rt s = Some true).
+Proof.
+  intros. split; [apply load_choice_sound|].
+  intros H. destruct (store_choice_first _ _ _ _ _ H) as (l1 & l2 & -> & Hm & Ht & _).
+  split; [apply in_or_app; right; left; reflexivity|]. split; [exact Hm|apply type_hit_iff; exact Ht].
+Qed.
+Print Assumptions selected_row_matches_addressing_mode.
+
+(* ... in the words of the addressing-mode specification (Model/MatchSpec.v, written from the YAML semantics: base / index
+   class, offset ~ / imd / id / *, scaled or not, pre- / post-indexed): the row ADMITS the operand's addressing kind *)
+Theorem selected_row_admits_kind : forall {U} a (tbl : list (row U)) m rt r,
+  wf_operand a (OMem m) = true -> wf_pattern a (PMem (rw_pat r)) = true ->
+  (load_choice a tbl m rt = Some (CRow r) \/ store_choice a tbl m rt = Some (CRow r)) ->
+  admits a (PMem (rw_pat r)) (kind a (OMem m)) = true.
+Proof.
+  intros U a tbl m rt r Ho Hp H.
+  assert (match_mem a m (rw_pat r) = Some true) as Hm.
+  { destruct H as [H|H]; [exact (proj2 (load_choice_sound _ _ _ _ _ H))|].
+    destruct (store_choice_first _ _ _ _ _ H) as (_ & _ & _ & Hm & _). exact Hm. }
+  rewrite (match_mem_admits a _ m Hp Ho) in Hm. congruence.
+Qed.
+Print Assumptions selected_row_admits_kind.
+
+(* totality: for operands as the parsers deliver them the matcher never raises, so a selection always exists *)
+Theorem selection_total_on_parsed_operands : forall {U} a (tbl : list (row U)) (d : U) m rt,
+  wf_operand a (OMem m) = true ->
+  (exists c, load_choice a tbl m rt = Some c) /\ (exists c, store_choice a tbl m rt = Some c) /\
+  (exists rows, get_load_throughput a tbl d m = Some rows) /\
+  (exists rows, get_store_throughput a tbl d m (Some rt) = Some rows).
+Proof.
+  intros U a tbl d m rt Ho.
+  assert (forall r : row U, In r tbl -> match_mem a m (rw_pat r) <> None) as Hn by (intros; apply match_mem_total; exact Ho).
+  split; [rewrite load_choice_unfold by exact Hn; eexists; reflexivity|].
+  split; [rewrite store_choice_unfold by exact Hn; eexists; reflexivity|].
+  unfold get_load_throughput, get_store_throughput. rewrite (shape_rows_total _ _ _ Hn), typed_filter. cbn [option_map].
+  split; eexists; reflexivity.
+Qed.
+Print Assumptions selection_total_on_parsed_operands.
+
+(* completeness: if any row of the load table matches, a matching row is selected and the default is NOT used;
+   in the words of the specification: if any (well-formed) row admits the operand's addressing kind *)
+Theorem matching_row_is_selected : forall {U} a (tbl : list (row U)) m rt,
+  wf_operand a (OMem m) = true ->
+  ((exists r, In r tbl /\ match_mem a m (rw_pat r) = Some true) \/
+   (exists r, In r tbl /\ wf_pattern a (PMem (rw_pat r)) = true /\ admits a (PMem (rw_pat r)) (kind a (OMem m)) = true)) ->
+  exists r', load_choice a tbl m rt = Some (CRow r') /\ In r' tbl /\ match_mem a m (rw_pat r') = Some true.
+Proof.
+  intros U a tbl m rt Ho H. apply load_choice_complete.
+  - intros; apply match_mem_total; exact Ho.
+  - destruct H as [H|(r & Hr & Hp & Ha)]; [exact H|]. exists r. split; [exact Hr|].
+    rewrite (match_mem_admits a _ m Hp Ho), Ha. reflexivity.
+Qed.
+Print Assumptions matching_row_is_selected.
+
+(* the default is used iff no row matches (store: iff no row both matches and names the source register type) *)
+Theorem default_iff_no_row_matches : forall {U} a (tbl : list (row U)) m rt,
+  (load_choice a tbl m rt = Some CDefault <-> forall r, In r tbl -> match_mem a m (rw_pat r) = Some false) /\
+  (wf_operand a (OMem m) = true ->
+   (store_choice a tbl m rt = Some CDefault <->
+    forall r, In r tbl -> match_mem a m (rw_pat r) = Some true -> type_hit a rt r = false)).
+Proof.
+  intros. split; [apply load_default_iff|]. intros Ho. apply store_default_iff. intros; apply match_mem_total; exact Ho.
+Qed.
+Print Assumptions default_iff_no_row_matches.
+
+(* typed-row preference: load = the FIRST row of the table that matches the addressing mode and names the register type;
+   if no matching row names it, the first matching row.  store = the first row that matches and names the type. *)
+Theorem typed_row_preference : forall {U} a (tbl : list (row U)) m rt r,
+  (load_choice a tbl m rt = Some (CRow r) ->
+   exists l1 l2, tbl = l1 ++ r :: l2 /\ shape_hit a m r = true /\
+     ((type_hit a rt r = true /\ forall x, In x l1 -> shape_hit a m x = true -> type_hit a rt x = false)
+      \/ ((forall x, In x tbl -> shape_hit a m x = true -> type_hit a rt x = false) /\
+          forall x, In x l1 -> shape_hit a m x = false))) /\
+  (store_choice a tbl m rt = Some (CRow r) ->
+   exists l1 l2, tbl = l1 ++ r :: l2 /\ match_mem a m (rw_pat r) = Some true /\ type_hit a rt r = true /\
+                 forall x, In x l1 -> shape_hit a m x = true -> type_hit a rt x = false).
+Proof. intros. split; [apply load_choice_first|apply store_choice_first]. Qed.
+Print Assumptions typed_row_preference.
+
+(* the costing model's own row choice (Costing.choose_load_row / store_uops: first typed row, else first row; row 0)
+   applied to what the getters hand back IS load_choice / store_choice *)
+Theorem costing_choice_is_table_choice : forall {T} a (tbl : list (row (@UL T))) d m rt,
+  (forall rows, get_load_throughput a tbl d m = Some rows ->
+     exists c, load_choice a tbl m rt = Some c /\ Costing.choose_load_row (to_ldrows a rt rows) = Pressure.Ok (choice_uops d c)) /\
+  (forall rows, get_store_throughput a tbl d m (Some rt) = Some rows ->
+     exists c rest, store_choice a tbl m rt = Some c /\ map snd rows = choice_uops d c :: rest).
+Proof. intros. split; intros rows H; [apply choose_load_is_choice|apply store_first_is_choice]; exact H. Qed.
+Print Assumptions costing_choice_is_table_choice.
+
+(* ---- no dependence on earlier look-ups ---- *)
+(* every line of a kernel is costed by the same function of (machine, tables, that line): no state is threaded *)
+Theorem rows_kernel_line_is_own_function : forall {T} (N : NumOps T) m tb k i,
+  nth_error (cost_kernel_rows N m tb k) i = option_map (cost_line_rows N m tb) (nth_error k i).
+Proof. exact @kernel_rows_pointwise. Qed.
+Print Assumptions rows_kernel_line_is_own_function.
+
+Theorem rows_kernel_frame : forall {T} (N : NumOps T) m tb k1 u k2,
+  cost_kernel_rows N m tb (k1 ++ u :: k2) = cost_kernel_rows N m tb k1 ++ cost_line_rows N m tb u :: cost_kernel_rows N m tb k2.
+Proof. exact @kernel_rows_app. Qed.
+Print Assumptions rows_kernel_frame.
+
+(* a getter that memoises its answers per key is indistinguishable from the stateless selection -- in every history,
+   from any cache that holds only correct answers -- provided the key determines the selection *)
+Theorem memoised_getter_exact : forall {K A} (keq : K -> K -> bool) (key : memop -> K) (sel : memop -> A),
+  (forall m1 m2, keq (key m1) (key m2) = true -> sel m1 = sel m2) ->
+  forall ms, memo_run keq key sel [] ms = map sel ms.
+Proof. intros K A keq key sel Hk ms. apply memo_run_exact; [exact Hk|]. intros k x []. Qed.
+Print Assumptions memoised_getter_exact.
+
+(* ... and the proviso cannot be dropped: with a key that records only WHETHER there is a displacement (the seeded
+   regression C08-2) the answer to the second look-up depends on the first *)
+Definition rax : regop := R (Some "rax"%string) None None None.
+Definition mem_num : memop := M (Some rax) (OImm (IVInt 8)) None 1 false PostFalse.      (* 8(%rax)   *)
+Definition mem_sym : memop := M (Some rax) OIdent None 1 false PostFalse.                (* tab(%rax) *)
+Definition ex_tbl : list (row (list (Q * list string))) :=
+  [ mkrow (MP (MStr "gpr") (FStr "imd") MNone (SInt 1) (GBool false) (GBool false)) None [(1, ["2D"])];
+    mkrow (MP (MStr "gpr") (FStr "id") MNone (SInt 1) (GBool false) (GBool false)) (Some "xmm") [(2, ["3D"])];
+    mkrow (MP (MStr "gpr") (FStr "*") (MStr "*") (SStr "*") (GBool false) (GBool false)) (Some "gpr") [(1, ["2D"; "3D"])] ]%string.
+Definition ex_dflt : list (Q * list string) := [(1, ["9"%string])].
+
+Theorem memoised_getter_coarse_key_refuted :
+  exists ms, memo_run coarse_keq coarse_key (get_load_throughput X86 ex_tbl ex_dflt) [] ms
+             <> map (get_load_throughput X86 ex_tbl ex_dflt) ms.
+Proof. exists [mem_num; mem_sym]. vm_compute. intros H. inversion H. Qed.
+Print Assumptions memoised_getter_coarse_key_refuted.
+
+(* ---- the composition theorems with the rows COMPUTED from the raw tables ---- *)
+(* cost_instr_rows is cost_instr on the look-up record whose rows were selected from the tables; outside the composition
+   path the tables are not consulted *)
+Theorem rows_computed_then_costed : forall {T} (N : NumOps T) m tb q (lk : Costing.lookup (T:=T)),
+  (forall e rt r,
+     with_fallback (lk_suffix lk) (lk_direct lk) (lk_direct_s lk) = None -> regform lk = Some (e, Pressure.Ok rt) ->
+     cost_instr_rows N m tb q lk = Some r ->
+     exists lk', fill_rows m tb q rt lk = Some lk' /\ r = compose N m lk' e (Pressure.Ok rt) /\ r = cost_instr N m lk') /\
+  ((with_fallback (lk_suffix lk) (lk_direct lk) (lk_direct_s lk) <> None \/ forall e rt, regform lk <> Some (e, Pressure.Ok rt)) ->
+   cost_instr_rows N m tb q lk = Some (cost_instr N m lk)).
+Proof. intros. split; [intros e rt r; apply cost_rows_compose|apply cost_rows_other]. Qed.
+Print Assumptions rows_computed_then_costed.
+
+(* micro-ops = register form ++ SELECTED load row ++ SELECTED store row *)
+Theorem compose_uops_rows : forall {T} (N : NumOps T) m tb q (lk : Costing.lookup (T:=T)) e rt c ru,
+  with_fallback (lk_suffix lk) (lk_direct lk) (lk_direct_s lk) = None ->
+  regform lk = Some (e, Pressure.Ok rt) ->
+  cost_instr_rows N m tb q lk = Some (Pressure.Ok c) -> e_uops e = UList ru ->
+  c_uops c = PList (ru ++ ld_part (isa_of (m_isa m)) tb q rt lk ++ st_part m tb q rt lk) /\
+  (lk_has_ld lk = true ->
+     exists mem ch, q_ld q = Some mem /\ load_choice (isa_of (m_isa m)) (t_ld tb) mem rt = Some ch /\
+                    ld_part (isa_of (m_isa m)) tb q rt lk = choice_uops (t_ld_default tb) ch) /\
+  (lk_has_st lk = true ->
+     exists mem ch, q_st q = Some mem /\ store_choice (isa_of (m_isa m)) (t_st tb) mem rt = Some ch /\
+                    st_part m tb q rt lk = if writeback_only (m_isa m) lk then [] else choice_uops (t_st_default tb) ch).
+Proof. exact @Proofs.Rows.compose_uops_rows. Qed.
+Print Assumptions compose_uops_rows.
+
+(* pressure = register form + m_ld * selected load row + m_st * selected store row, port by port *)
+Theorem compose_pressure_rows : forall m tb q (lk : Costing.lookup (T:=Q)) e rt c r l s,
+  with_fallback (lk_suffix lk) (lk_direct lk) (lk_direct_s lk) = None ->
+  regform lk = Some (e, Pressure.Ok rt) ->
+  cost_instr_rows QNum m tb q lk = Some (Pressure.Ok c) ->
+  avg_pressure QNum (m_ports m) (e_uops e) = Pressure.Ok r ->
+  avg_pressure_list QNum (m_ports m) (ld_part (isa_of (m_isa m)) tb q rt lk) = Pressure.Ok l ->
+  avg_pressure_list QNum (m_ports m) (st_part m tb q rt lk) = Pressure.Ok s ->
+  List.length (c_pp c) = List.length (m_ports m) /\
+  forall j, qnth (c_pp c) j == qnth r j + mult_of (m_ld_mult m) rt * qnth l j + mult_of (m_st_mult m) rt * qnth s j.
+Proof. exact Proofs.Rows.compose_pressure_rows. Qed.
+Print Assumptions compose_pressure_rows.
+
+Theorem compose_pressure_rows_is_uniform_split : forall m tb q (lk : Costing.lookup (T:=Q)) e rt c ru r l s t,
+  with_fallback (lk_suffix lk) (lk_direct lk) (lk_direct_s lk) = None ->
+  regform lk = Some (e, Pressure.Ok rt) ->
+  cost_instr_rows QNum m tb q lk = Some (Pressure.Ok c) -> e_uops e = UList ru ->
+  m_ld_mult m = None -> m_st_mult m = None ->
+  avg_pressure_list QNum (m_ports m) ru = Pressure.Ok r ->
+  avg_pressure_list QNum (m_ports m) (ld_part (isa_of (m_isa m)) tb q rt lk) = Pressure.Ok l ->
+  avg_pressure_list QNum (m_ports m) (st_part m tb q rt lk) = Pressure.Ok s ->
+  avg_pressure_list QNum (m_ports m) (ru ++ ld_part (isa_of (m_isa m)) tb q rt lk ++ st_part m tb q rt lk) = Pressure.Ok t ->
+  forall j, qnth (c_pp c) j == qnth t j.
+Proof. exact Proofs.Rows.compose_pressure_rows_uniform. Qed.
+Print Assumptions compose_pressure_rows_is_uniform_split.
+
+Theorem compose_latency_rows : forall m tb q (lk : Costing.lookup (T:=Q)) e rt c,
+  with_fallback (lk_suffix lk) (lk_direct lk) (lk_direct_s lk) = None ->
+  regform lk = Some (e, Pressure.Ok rt) ->
+  cost_instr_rows QNum m tb q lk = Some (Pressure.Ok c) ->
+  exists l ll, e_lt e = Some l /\ (if lk_has_ld lk then load_latency QNum m rt else Pressure.Ok 0) = Pressure.Ok ll /\
+    c_lat c == l + ll /\ c_lat_wo c = l.
+Proof. exact Proofs.Rows.compose_latency_rows. Qed.
+Print Assumptions compose_latency_rows.
+
+Theorem compose_throughput_rows : forall m tb q (lk : Costing.lookup (T:=Q)) e rt c,
+  with_fallback (lk_suffix lk) (lk_direct lk) (lk_direct_s lk) = None ->
+  regform lk = Some (e, Pressure.Ok rt) ->
+  cost_instr_rows QNum m tb q lk = Some (Pressure.Ok c) ->
+  exists lk' d t, fill_rows m tb q rt lk = Some lk' /\
+    ld_uops lk' = ld_part (isa_of (m_isa m)) tb q rt lk /\ st_uops m lk' = st_part m tb q rt lk /\
+    data_pressure QNum m lk' rt = Pressure.Ok d /\ e_tp e = Some t /\
+    t <= c_tp c /\ (forall y, In y d -> y <= c_tp c) /\ (c_tp c = t \/ In (c_tp c) d).
+Proof. exact Proofs.Rows.compose_throughput_rows. Qed.
+Print Assumptions compose_throughput_rows.
+
+Theorem compose_not_unknown_rows : forall {T} (N : NumOps T) m tb q (lk : Costing.lookup (T:=T)) e rtr c,
+  with_fallback (lk_suffix lk) (lk_direct lk) (lk_direct_s lk) = None ->
+  regform lk = Some (e, rtr) ->
+  cost_instr_rows N m tb q lk = Some (Pressure.Ok c) ->
+  ~ In F_TP_UNKWN (c_flags c) /\ ~ In F_LT_UNKWN (c_flags c).
+Proof. exact @Proofs.Rows.compose_not_unknown_rows. Qed.
+Print Assumptions compose_not_unknown_rows.
+
+Theorem unknown_zero_rows : forall {T} (N : NumOps T) m tb q (lk : Costing.lookup (T:=T)),
+  with_fallback (lk_suffix lk) (lk_direct lk) (lk_direct_s lk) = None ->
+  regform lk = None ->
+  exists c, cost_instr_rows N m tb q lk = Some (Pressure.Ok c) /\
+    In F_TP_UNKWN (c_flags c) /\ In F_LT_UNKWN (c_flags c) /\
+    c_pp c = map (fun _ => n0 N) (m_ports m) /\ c_lat c = n0 N /\ c_lat_wo c = n0 N /\ c_tp c = n0 N /\ c_uops c = PList [].
+Proof. exact @Proofs.Rows.unknown_zero_rows. Qed.
+Print Assumptions unknown_zero_rows.
+
+(* ------------------------------------------------------------------ non-vacuity (rows) *)
+(* x86: numeric displacement -> the `imd` row, then (register type gpr) the later wildcard row typed gpr is preferred;
+   symbolic displacement -> never the `imd` row: the `id` row, whose type xmm does not fit gpr, then the typed wildcard
+   row; an operand nothing matches (index register, and the wildcard row removed) -> the default *)
+Example ex_rows_x86 :
+  load_choice X86 ex_tbl mem_num "gpr" = Some (CRow (nth 2 ex_tbl (mkrow (MP MNone FNone MNone SNone (GBool false) (GBool false)) None [])))
+  /\ load_choice X86 ex_tbl mem_num "ymm" = Some (CRow (nth 0 ex_tbl (mkrow (MP MNone FNone MNone SNone (GBool false) (GBool false)) None [])))
+  /\ load_choice X86 ex_tbl mem_sym "xmm" = Some (CRow (nth 1 ex_tbl (mkrow (MP MNone FNone MNone SNone (GBool false) (GBool false)) None [])))
+  /\ load_choice X86 ex_tbl mem_sym "ymm" = Some (CRow (nth 1 ex_tbl (mkrow (MP MNone FNone MNone SNone (GBool false) (GBool false)) None [])))
+  /\ get_load_throughput X86 ex_tbl ex_dflt mem_num <> get_load_throughput X86 ex_tbl ex_dflt mem_sym
+  /\ load_choice X86 (firstn 2 ex_tbl) (M (Some rax) ONone (Some rax) 8 false PostFalse) "gpr" = Some CDefault
+  /\ store_choice X86 ex_tbl mem_num "ymm" = Some CDefault
+  /\ store_choice X86 ex_tbl mem_sym "xmm" = Some (CRow (nth 1 ex_tbl (mkrow (MP MNone FNone MNone SNone (GBool false) (GBool false)) None [])))
+  /\ wf_operand X86 (OMem mem_num) = true /\ wf_operand X86 (OMem mem_sym) = true
+  /\ forallb (fun r => wf_pattern X86 (PMem (rw_pat r))) ex_tbl = true.
+Proof. repeat split; try reflexivity. vm_compute. intros H; inversion H. Qed.
+
+(* AArch64: plain, pre-indexed and post-indexed forms of the same base + displacement get different rows *)
+Definition x1 : regop := R (Some "1"%string) (Some "x"%string) None None.
+Definition a_tbl : list (row (list (Q * list string))) :=
+  [ mkrow (MP (MStr "x") (FStr "imd") MNone (SInt 1) (GBool false) (GBool true)) None [(1, ["6"]); (1, ["1"])];
+    mkrow (MP (MStr "x") (FStr "imd") MNone (SInt 1) (GBool false) (GBool false)) None [(1, ["6"])];
+    mkrow (MP (MStr "x") (FStr "imd") MNone (SInt 1) (GBool true) (GBool false)) None [(1, ["6"]); (1, ["2"])];
+    mkrow (MP (MStr "x") FNone MNone (SInt 1) (GBool false) (GBool true)) None [(1, ["6"]); (1, ["3"])] ]%string.
+Example ex_rows_a64 :
+  option_map (choice_uops ex_dflt) (load_choice A64 a_tbl (M (Some x1) (OImm (IVInt 8)) None 1 false PostFalse) "x") = Some [(1, ["6"%string])]
+  /\ option_map (choice_uops ex_dflt) (load_choice A64 a_tbl (M (Some x1) (OImm (IVInt 8)) None 1 true PostFalse) "x") = Some [(1, ["6"]); (1, ["2"])]%string
+  /\ option_map (choice_uops ex_dflt) (load_choice A64 a_tbl (M (Some x1) ONone None 1 false PostDict) "x") = Some [(1, ["6"]); (1, ["3"])]%string
+  /\ option_map (choice_uops ex_dflt) (load_choice A64 a_tbl (M (Some x1) OIdent None 1 false PostFalse) "x") = Some ex_dflt.
+Proof. repeat split; reflexivity. Qed.
+
+(* the whole path: `addq $1, 8(%rax)` / `addq $1, tab(%rax)` costed from the raw tables (same machine and register form as
+   ex_compose above): load micro-ops differ with the displacement kind (`imd` row / `id` row typed gpr); the store of the
+   numeric form falls to the default because its only matching row names no source type *)
+Definition ex_tbl2 : list (row (list (Q * list string))) :=
+  [ mkrow (MP (MStr "gpr") (FStr "imd") MNone (SInt 1) (GBool false) (GBool false)) None [(1, ["2D"])];
+    mkrow (MP (MStr "gpr") (FStr "id") MNone (SInt 1) (GBool false) (GBool false)) (Some "gpr") [(2, ["2D"])] ]%string.
+Definition ex_tb : tables (T:=Q) := mktables ex_tbl2 ex_dflt ex_tbl2 [(1, ["1"%string])].
+Definition exlk0 : Costing.lookup (T:=Q) := mklookup true true true None None None (Some (exreg, Pressure.Ok "gpr"%string)) [] [] false [false].
+Definition q_num := mkmemq (Some mem_num) (Some mem_num).
+Definition q_sym := mkmemq (Some mem_sym) (Some mem_sym).
+Example ex_compose_rows :
+  match cost_instr_rows QNum exm ex_tb q_num exlk0, cost_instr_rows QNum exm ex_tb q_sym exlk0 with
+  | Some (Pressure.Ok a), Some (Pressure.Ok b) =>
+      andb (match c_uops a with PList [(_, ["0"; "1"]); (_, ["2D"]); (_, ["1"])]%string => true | _ => false end)
+           (andb (match c_uops b with PList [(_, ["0"; "1"]); (_, ["2D"]); (_, ["2D"])]%string => true | _ => false end)
+                 (andb (Qeq_bool (c_lat a) 5)
+                       (andb (forallb (fun p => Qeq_bool (fst p) (snd p)) (combine (c_pp a) [1#2; 3#2; 1]))
+                             (forallb (fun p => Qeq_bool (fst p) (snd p)) (combine (c_pp b) [1#2; 1#2; 4])))))
+  | _, _ => false
+  end = true
+  /\ with_fallback (lk_suffix exlk0) (lk_direct exlk0) (lk_direct_s exlk0) = None
+  /\ regform exlk0 = Some (exreg, Pressure.Ok "gpr"%string)
+  /\ ld_part X86 ex_tb q_num "gpr" exlk0 = [(1, ["2D"])]%string
+  /\ ld_part X86 ex_tb q_sym "gpr" exlk0 = [(2, ["2D"])]%string
+  /\ st_part exm ex_tb q_num "gpr" exlk0 = [(1, ["1"])]%string
+  /\ st_part exm ex_tb q_sym "gpr" exlk0 = [(2, ["2D"])]%string
+  /\ (exists t, avg_pressure_list QNum (m_ports exm) ([(1, ["0"; "1"]%string)] ++ ld_part X86 ex_tb q_num "gpr" exlk0
+                                                      ++ st_part exm ex_tb q_num "gpr" exlk0) = Pressure.Ok t).
+Proof. repeat split; try reflexivity. eexists; vm_compute; reflexivity. Qed.
